@@ -74,7 +74,7 @@ fn check(b: &[u8], e: &[u8], what: &str) {
 }
 
 fn run_op(hs: &mut Vec<H>, base: Option<&Bytes>, base_expect: &[u8], op: u8) {
-    match op % 12 {
+    match op % 13 {
         0 => {
             if let Some(b) = base {
                 let c = b.clone();
@@ -122,7 +122,7 @@ fn run_op(hs: &mut Vec<H>, base: Option<&Bytes>, base_expect: &[u8], op: u8) {
             }
             if let Some(H::B(b, e)) = hs.pop() {
                 let p = b.as_ptr() as usize;
-                match op % 12 {
+                match op % 13 {
                     5 => match b.try_into_mut() {
                         Ok(mut m) => {
                             check(&m[..], &e, "try_into_mut");
@@ -153,8 +153,8 @@ fn run_op(hs: &mut Vec<H>, base: Option<&Bytes>, base_expect: &[u8], op: u8) {
         }
         8 | 9 => {
             if let Some(H::M(m, e)) = hs.last_mut() {
-                let want = if op % 12 == 8 { N } else { N / 2 + 1 };
-                let ok = if op % 12 == 8 {
+                let want = if op % 13 == 8 { N } else { N / 2 + 1 };
+                let ok = if op % 13 == 8 {
                     m.reserve(want);
                     true
                 } else {
@@ -173,6 +173,15 @@ fn run_op(hs: &mut Vec<H>, base: Option<&Bytes>, base_expect: &[u8], op: u8) {
                 if b.len() > 1 {
                     b.truncate(1);
                     e.truncate(1);
+                }
+            }
+        }
+        12 => {
+            if let Some(H::B(b, _)) = hs.last() {
+                std::hint::black_box(b.is_unique());
+            } else if hs.is_empty() {
+                if let Some(b0) = base {
+                    std::hint::black_box(b0.is_unique());
                 }
             }
         }
@@ -309,9 +318,9 @@ fn gen(r: &mut Lcg, max_threads: u64, max_ops: u64) -> Program {
         took_tail |= h == 2 || h == 3;
         any_ref |= h == 1;
         let alpha: &[u8] = match h {
-            1 => &[0, 2, 4, 5, 6, 3],
+            1 => &[0, 2, 4, 5, 6, 3, 12],
             2 => &[2, 8, 9, 4, 11],
-            _ => &[1, 2, 3, 4, 5, 6, 7, 10],
+            _ => &[1, 2, 3, 4, 5, 6, 7, 10, 12],
         };
         let n = r.next(max_ops + 1);
         threads.push((h, (0..n).map(|_| alpha[r.next(alpha.len() as u64) as usize]).collect()));
